@@ -261,11 +261,12 @@ FAULTS = {
 }
 
 
-def exchange(sx, driver, kind, fault, nmax=6, plen=3, csbits=12):
+def exchange(sx, driver, kind, fault, nmax=6, plen=3, csbits=12, timeout=None):
     crcref.install_summary(sx)
     dev, link = make_device(sx, driver)
     clf = make_frontend(dev)
-    target, send, timeout = make_target(kind)
+    target, send, tmo = make_target(kind)
+    timeout = tmo if timeout is None else timeout
     clf.target = target
     f = None
     if fault != 'none':
@@ -586,6 +587,16 @@ def partitions(tier):
                 parts.append(dict(name="%s:%s:acknak" % (d, k), fn="exchange",
                                   params=dict(driver=d, kind=k, fault='none',
                                               nmax=6, plen=1)))
+            if not q and k in ('tt2', 'ttf', 'ldep') and d in ('pn532', 'pn533', 'rcs956', 'rcs380'):
+                # other payload sizes and exchange time-outs (PN53x: response
+                # time-out index 1..16; RC-S380: 0 = no time-out)
+                for i, (pl, tmo) in enumerate([(0, 0.1), (7, 0.1), (3, 0.0005),
+                                               (3, 5.0), (3, 0)]):
+                    if tmo == 0 and d != 'rcs380':
+                        continue
+                    parts.append(dict(name="%s:%s:var%d" % (d, k, i), fn="exchange",
+                                      params=dict(driver=d, kind=k, fault='none',
+                                                  nmax=6, plen=pl, timeout=tmo)))
     for role in ('initiator', 'target'):
         parts.append(dict(name="udp:" + role, fn="udp_exchange", params=dict(role=role)))
     return parts
@@ -601,15 +612,17 @@ MUST_REACH = ["out:data", "out:TimeoutError", "out:TransmissionError",
                            'ldep-recv', 'ltt3')]
 
 BOUNDS = {
-    "quick": "drivers pn531, pn532, pn533, rcs956, acr122, rcs380 (all target kinds the driver can activate: Type 2/4A/1 incl. READ8 register path, Type B, Type F, DEP active/passive initiator; listen-mode Type 2 / DEP / Type 3 targets), arygon A/B (Type 2, DEP target, Type 3 target); without host-link fault: the status byte of every host command of the exchange symbolic over 0..255 simultaneously (PN533 register commands, RC-S956 WriteRegister, the RF command), RC-S380: 8-bit status of InSetRF/InSetProtocol, the full 32-bit communication status of InCommRF, the 12 defined bits of the TgCommRF status; 3-4 symbolic response payload bytes (Type 2: incl. CRC_A, and 1-byte ACK/NAK); with a fault: one fault at any host command index of the exchange out of {IOError ETIMEDOUT/ENODEV/EIO from write, ETIMEDOUT/EIO/ENODEV/EPIPE from the ACK read or the response read, response cut to 1,3,5,6,len-2,len-1 bytes, error frame, fully symbolic frame of the same length}, statuses good; udp: send ok/error/partial x receive datagram (9 shapes)/error/silence for initiator and target role",
-    "thorough": "as quick with all kinds for arygon A/B, faults for every kind, Type 1 RSEG (16 chip commands)",
+    "quick": "pn532 and rcs380: every target kind the driver can activate (Type 2, 4A, 1 incl. the PN532 READ8 register path, Type B, Type F, DEP active/passive as initiator; listen-mode Type 2 / DEP with and without data to send / Type 3 via CIU registers) x {no fault, I/O fault, frame fault}; pn533, pn531, rcs956, acr122: Type 2 with all three fault classes plus 2-4 further kinds without fault (table QUICK); arygon A/B: Type 2 without fault and with I/O faults. Without host-link fault: the status byte of *every* host command of the exchange is symbolic over 0..255 simultaneously (PN533 ReadRegister/WriteRegister, RC-S956 WriteRegister, InCommunicateThru/InDataExchange/TgResponseToInitiator/TgGetInitiatorCommand; CIU_CommIRq/CIU_DivIRq for the Type 3 listen loop); RC-S380: 8-bit status of InSetRF/InSetProtocol, all 32 bits of the InCommRF communication status, 9 of the 12 named bits of the TgCommRF status; 3-4 symbolic payload bytes (Type 2: incl. CRC_A; also a 1-byte ACK/NAK). With a fault: exactly one fault at any host command index of the exchange out of {IOError ETIMEDOUT/ENODEV/EIO from write, ETIMEDOUT/EIO/ENODEV/EPIPE from the ACK read or the response read, response cut to 1,3,5,6,len-2,len-1 bytes, chip error frame, arbitrary bytes of the response's length}, statuses good. udp: send ok/error/partial x receive (9 datagram shapes)/socket error/silence, initiator and target role",
+    "thorough": "all eight driver classes x all kinds they support x all three fault classes, Type 1 RSEG (16 chip commands), PN533 READ8 path (a status byte on each of ~20 register commands), all 12 named TgCommRF status bits; pn532/pn533/rcs956/rcs380 Type 2, Type F and DEP-target exchanges also with 0 and 7 payload bytes and time-outs 0.5 ms, 5 s (RC-S380: 0)",
 }
 OUTSIDE = [
     "two or more host-link faults in one exchange; a fault combined with error statuses",
     "register values returned by ReadRegister in the bitrate set-up are concrete 00 (they are re-packed with bytes.join, a C boundary); send data is concrete",
+    "Type 1 READ8 path: FIFO contents concrete and no arbitrary-bytes fault (the driver turns the bytes into text with str.format)",
+    "RC-S380 target mode: TgCommRF status bits outside the 12 the driver names; the arbitrary-bytes fault covers the 10 bytes before the status only (the driver formats the status through a dict lookup, which enumerates it)",
     "activation (sense_*/listen_*): the activated target objects are constructed directly as the drivers return them",
     "module-level init(transport) probing, nfc.clf.transport (libusb/pyserial)",
-    "RC-S380 TgCommRF status bits outside the 12 the driver names; exchange time-outs other than 0.1 s (0.03 s for the Type 3 listen loop)",
+    "exchange time-outs other than 0.1 s (0.03 s for the Type 3 listen loop; thorough: also 0.5 ms, 5 s and, RC-S380, 0)",
     "udp: real sockets; datagram contents other than the listed shapes",
 ]
 ASSUMPTIONS = [
